@@ -3,8 +3,10 @@ C03 -- loading links exactly the key-matching pairs, independent of input order.
 
 E2 + E3.  (1) join oracle: every population over schemas with single and
 multi-attribute keys of every core type, null keys in every form, duplicate
-and dangling keys, a shared referential attribute, reflexive and association
-class shapes is loaded and its links compared with the relational join of the
+and dangling keys, a shared referential attribute (to two classes; to one class
+through two identifiers; as the identifier a third class refers to), equally
+named referential attributes of two classes, reflexive and association class
+shapes is loaded and its links compared with the relational join of the
 reference; (2) order / partition independence: every permutation of the
 statements, every contiguous split into up to three input() calls in every
 call order, files, directory trees and zip archives; (3) API route: the same
@@ -26,6 +28,9 @@ ASSUMPTIONS = [
     'which pairs are linked depends on the model alone, not on models loaded earlier in the process (cross-model family: schemas '
     'declaring the same class and attribute names with other types, one after the other in one process)',
     'inferred-schema inputs (no CREATE TABLE) are used only with positional rows whose values determine the types',
+    'an identifying attribute that is itself referential (D.B_X -> B.X, B.X -> A.Id / C.Id) has a value only through a link: the API '
+    'route is compared for populations in which every non-null value of such an attribute is the one its links give (the loader '
+    'route is compared for all of them, dangling ones included)',
 ]
 ABSENT = '<absent>'
 Assoc = relmodel.Assoc
@@ -54,7 +59,7 @@ def schemas_():
                 {'A.X': [ABSENT, 0.0, 1.5], 'B.AX': [ABSENT, 0.0, 1.5, 2.5]}, (2, 2)))
     out.append((S('shared_referential', [('A', [('Id', 'UNIQUE_ID')]), ('C', [('Id', 'UNIQUE_ID')]), ('B', [('Bid', 'INTEGER'), ('X', 'UNIQUE_ID')])],
                   [Assoc(1, 'B', ['X'], True, True, '', 'A', ['Id'], False, True, ''), Assoc(2, 'B', ['X'], True, True, '', 'C', ['Id'], False, True, '')]),
-                {'A.Id': [0, 5, 7], 'C.Id': [5, 8], 'B.X': [ABSENT, 0, 5, 7, 8]}, (2, 2)))
+                {'A.Id': [0, 5, 7], 'C.Id': [5, 8], 'B.X': [ABSENT, 0, 5, 7, 8]}, (2, 1, 2)))
     out.append((S('reflexive', [('A', [('Id', 'UNIQUE_ID'), ('Next_Id', 'UNIQUE_ID')])],
                   [Assoc(2, 'A', ['Next_Id'], False, True, 'prev', 'A', ['Id'], False, True, 'next')]),
                 {'A.Id': [0, 5, 7], 'A.Next_Id': [ABSENT, 0, 5, 7, 9]}, (3,)))
@@ -81,6 +86,31 @@ def schemas_():
     out.append((S('phrased_non_reflexive', [('A', [('Id', 'UNIQUE_ID')]), ('B', [('Bid', 'INTEGER'), ('A_Id', 'UNIQUE_ID')])],
                   [Assoc(7, 'B', ['A_Id'], True, True, 'is held by', 'A', ['Id'], False, True, 'holds')]),
                 {'A.Id': [5, 7], 'B.A_Id': [0, 5, 9]}, (2, 2)))
+    # one referential attribute formalising two associations to the SAME class through two different identifiers
+    out.append((S('shared_name_two_identifiers', [('A', [('Id', 'UNIQUE_ID'), ('Alt', 'UNIQUE_ID')]), ('B', [('Bid', 'INTEGER'), ('Ref', 'UNIQUE_ID')])],
+                  [Assoc(1, 'B', ['Ref'], True, True, '', 'A', ['Id'], False, True, ''), Assoc(2, 'B', ['Ref'], True, True, '', 'A', ['Alt'], False, True, '')]),
+                {'A.Id': [5, 7], 'A.Alt': [5, 7, 8], 'B.Ref': [ABSENT, 0, 5, 7, 8]}, (2, 2)))
+    # two classes whose referential attributes carry the same name and refer to the same class through different identifiers
+    out.append((S('same_name_two_classes', [('A', [('Id', 'UNIQUE_ID'), ('Alt', 'UNIQUE_ID')]), ('B', [('Bid', 'INTEGER'), ('Ref', 'UNIQUE_ID')]),
+                                            ('C', [('Cid', 'INTEGER'), ('Ref', 'UNIQUE_ID')])],
+                  [Assoc(1, 'B', ['Ref'], True, True, '', 'A', ['Id'], False, True, ''), Assoc(2, 'C', ['Ref'], True, True, '', 'A', ['Alt'], False, True, '')]),
+                {'A.Id': [5, 7], 'A.Alt': [5, 7], 'B.Ref': [ABSENT, 5, 7, 8], 'C.Ref': [0, 5, 7]}, (2, 1, 2)))
+    # the same with two-attribute keys listed in crossed orders: equal sets of referring names, different identifiers
+    out.append((S('same_names_two_attr_identifiers', [('A', [('P', 'INTEGER'), ('Q', 'INTEGER'), ('U', 'INTEGER')]),
+                                                      ('B', [('Bid', 'INTEGER'), ('X', 'INTEGER'), ('Y', 'INTEGER')]),
+                                                      ('C', [('Cid', 'INTEGER'), ('Y', 'INTEGER'), ('X', 'INTEGER')])],
+                  [Assoc(1, 'B', ['X', 'Y'], True, True, '', 'A', ['P', 'Q'], True, True, ''),
+                   Assoc(2, 'C', ['X', 'Y'], True, True, '', 'A', ['U', 'P'], True, True, '')]),
+                {'A.P': [1, 2], 'A.Q': [1, 2], 'A.U': [1, 2], 'B.X': [1, 2], 'B.Y': [1, 2], 'C.X': [1, 2], 'C.Y': [ABSENT, 1, 2]}, (1, 1, 1)))
+    # three levels: a shared referential attribute named differently from the identifiers it refers to, itself the identifier a
+    # third class refers to
+    out.append((S('shared_referential_chain', [('A', [('Id', 'UNIQUE_ID')]), ('C', [('Id', 'UNIQUE_ID')]), ('B', [('Bid', 'INTEGER'), ('X', 'UNIQUE_ID')]),
+                                               ('D', [('Did', 'INTEGER'), ('B_X', 'UNIQUE_ID')])],
+                  [Assoc(1, 'B', ['X'], True, True, '', 'A', ['Id'], False, True, ''), Assoc(2, 'B', ['X'], True, True, '', 'C', ['Id'], False, True, ''),
+                   Assoc(3, 'D', ['B_X'], True, True, '', 'B', ['X'], False, True, '')]),
+                {'A.Id': [5, 7], 'C.Id': [5, 8], 'B.X': [0, 5, 7, 8, 9], 'D.B_X': [ABSENT, 0, 5, 7, 8, 9]}, (1, 1, 2, 1)))
+    for schema, _, caps in out:
+        assert len(caps) == len(schema.classes), schema.name
     return out
 
 
@@ -231,15 +261,22 @@ def join_task(ctx, task):
                 ctx.distinct('nontrivial', ('join', si, repr(rows)))
 
 
+# schemas left out of the cross-model family: their name / type clashes (A.Id, B.X of type UNIQUE_ID against INTEGER / STRING)
+# are those of id_key and shared_referential, which take part
+CROSS_EXEMPT = ('shared_name_two_identifiers', 'same_name_two_classes', 'same_names_two_attr_identifiers', 'shared_referential_chain')
+
+
 def cross_pairs():
     '''Ordered pairs (i, j) of schemas that declare a class and attribute of the same names with different types: the
     models are unrelated, but anything the loader remembers by name would carry over.'''
     sch = [s for s, _, _ in schemas_()]
     out = []
     for i, a in enumerate(sch):
+        if a.name in CROSS_EXEMPT:
+            continue
         ta = dict(((k, n.upper()), t.upper()) for k, attrs in a.classes for n, t in attrs)
         for j, b in enumerate(sch):
-            if i == j:
+            if i == j or b.name in CROSS_EXEMPT:
                 continue
             tb = dict(((k, n.upper()), t.upper()) for k, attrs in b.classes for n, t in attrs)
             if any(key in tb and tb[key] != t for key, t in ta.items()):
@@ -445,8 +482,21 @@ def api_task(ctx, task):
             for kind, values in rows:
                 if kind == a.tgt and any(values.get(k, ABSENT) == ABSENT for k in a.tkeys):
                     ok = False
+        # an identifying attribute that is itself referential holds a value only through a link: a dangling value of it
+        # cannot be expressed through new() / is not there to be cloned
+        types = dict((k, dict(a)) for k, a in schema.classes)
+        for a in schema.assocs:
+            for k in a.tkeys:
+                if k not in schema.referentials(a.tgt):
+                    continue
+                for idx, (kind, values) in enumerate(rows):
+                    v = values.get(k, ABSENT)
+                    if kind == a.tgt and v != ABSENT and not relmodel.is_null(v, types[kind][k]) and ref.attr(idx, k) != v:
+                        ok = False
         if not ok:
             continue
+        if any(k in schema.referentials(a.tgt) for a in schema.assocs for k in a.tkeys):
+            ctx.count('api_chained_cases')
         ctx.count('api_cases')
         case = dict(kind='api', schema=si, rows=rows)
         want = ref.observe()
@@ -537,6 +587,11 @@ def run(ctx):
     ctx.require(ctx.nd('join_cases') >= 2000, 'too few populations loaded (%d)' % ctx.nd('join_cases'))
     ctx.require(ctx.n('small_inputs') >= 20, 'too few inputs for the permutation oracle (%d)' % ctx.n('small_inputs'))
     ctx.require(ctx.n('api_cases') >= 200, 'too few API-route populations (%d)' % ctx.n('api_cases'))
+    ctx.require(ctx.n('api_chained_cases') >= 100, 'too few API-route populations with a referential identifier (%d)' % ctx.n('api_chained_cases'))
+    for si, (schema, _, caps) in enumerate(schemas_()):
+        # (every schema that admits an input of exactly the statement bound)
+        if 2 <= 6 - len(schema.classes) - len(schema.assocs) <= sum(caps):
+            ctx.require(any(i == si for i, _ in small), 'schema %s takes no part in the permutation family' % schema.name)
 
 
 def replay(ctx, case):
@@ -560,7 +615,7 @@ def coverage(ctx):
         populations=ctx.n('populations'), cross_model=dict(ordered_schema_pairs=ctx.n('cross_pairs'), loads=ctx.n('cross_loads'),
                                                             what='populations covering the alphabet of schema i are loaded, then every '
                                                             'population of schema j, in a process of its own per task'),
-        api_populations=ctx.n('api_cases'), order_inputs=ctx.n('small_inputs'),
+        api_populations=ctx.n('api_cases'), api_populations_with_referential_identifier=ctx.n('api_chained_cases'), order_inputs=ctx.n('small_inputs'),
         distinct_nontrivial=ctx.nd('nontrivial'),
         rule='join: every population of the bounded alphabets per schema, each in 2 (thorough 4) value/insert styles; non-trivial = '
              'populations with at least one link; order: every permutation and every contiguous <=3-way split in every call order of '
